@@ -87,7 +87,8 @@ class Ctx:
         # the reference enumerator (Props/Oracle.lean) for every check that judges outcomes against it, and the
         # refinement "twin runs over the lock fragment are reference executions" (Props/Refine.lean) for the lock
         # and deadlock properties
-        shared = [(k, mod) for k, mod, users in (("ORACLE", "Oracle", SC_ORACLE_USERS), ("REFINE", "Refine", REFINE_USERS))
+        shared = [(k, mod) for k, mod, users in (("ORACLE", "Oracle", SC_ORACLE_USERS), ("REFINE", "Refine", REFINE_USERS),
+                                                 ("DEADLOCK", "Deadlock", {"C05"}))
                   if pid in users]
         table = json.load(open(os.path.join(lvlib.VERIF, "checks", "theorems.json")))
         theorems = list(theorems)
